@@ -177,9 +177,9 @@ def tlc_scripts(workdir, module, cfg, num, depth, seed, timeout=900, tag="SCRIPT
     return scripts, r
 
 
-def hv(args, cwd, timeout=3000):
+def hv(args, cwd, timeout=3000, env=None):
     t0 = time.time()
-    p = sh([HV] + args, cwd=cwd, timeout=timeout, check=False)
+    p = sh([HV] + args, cwd=cwd, env=env, timeout=timeout, check=False)
     if p.returncode != 0:
         raise Infra("harness driver failed: hv %s\n%s" % (" ".join(args), p.stdout[-4000:]))
     return p.stdout, time.time() - t0
